@@ -840,6 +840,11 @@ def modelCaps : List String :=
 
 /-! ### the line handler -/
 
+/-- Every `k`-th element, starting with the first (`Iterator::step_by`). -/
+def stepBy (k : Nat) : List Nat → Nat → List Nat
+  | [], _ => []
+  | x :: t, i => if i % k == 0 then x :: stepBy k t (i + 1) else stepBy k t (i + 1)
+
 def firstDiff (a b : List String) : Nat × String × String := Id.run do
   let mut i := 0
   let mut xs := a
@@ -911,6 +916,8 @@ def joinLine (st : JState) (line : String) : JState × List String :=
         let impl := impl0.filter (fun t => !t.startsWith "!")
         -- `!ff<t>=<i>` / `!fl<t>=<i>`: `par_join().find_first(index ≥ t)` / `.find_last(index ≤ t)` (`-` = nothing found)
         let findToks := impl0.filter (fun t => t.startsWith "!ff" || t.startsWith "!fl")
+        -- `!sk<k>=` / `!nth<k>=` / `!sb<k>=`: the sequential join consumed through `skip(k)` / `nth(k)` / `step_by(k)`
+        let seqToks := impl0.filter (fun t => t.startsWith "!sk" || t.startsWith "!nth" || t.startsWith "!sb")
         let (st, outC) :=
           if badCount.isEmpty || st.monDead then (st, []) else
           ({ st with mons := st.mons + 1 },
@@ -966,7 +973,31 @@ def joinLine (st : JState) (line : String) : JState × List String :=
                 else some s!"par_join().{if last then "find_last(index ≤ " else "find_first(index ≥ "}{t}) returned {got}, the sequential join gives {wantS}"
               | none => some s!"unparsable token {tok}"
             | _ => some s!"unparsable token {tok}")
-          match (match mo.reason with | some x => some x | none => findBad.map (fun w => ("C07", w))) with
+          -- iterator adaptors over the sequential join deliver the plain join's items, minus the ones they skip
+          let seqBad : Option String := seqToks.findSome? (fun tok =>
+            let (kind, rest) :=
+              if tok.startsWith "!sk" then ("skip", (tok.drop 3).toString)
+              else if tok.startsWith "!nth" then ("nth", (tok.drop 4).toString)
+              else ("step_by", (tok.drop 3).toString)
+            match rest.splitOn "=" with
+            | [k, got] =>
+              if got == "?" then none else
+              match k.toNat? with
+              | some k =>
+                let want : List Nat :=
+                  if kind == "skip" then ks.drop k
+                  else if kind == "nth" then (match ks[k]? with | some i => [i] | none => [])
+                  else stepBy k ks 0
+                let wantS := if want.isEmpty then "-" else ",".intercalate (want.map toString)
+                if got == wantS then none
+                else some s!"join().{kind}({k}) delivered [{got}], the plain join delivers [{wantS}]"
+              | none => some s!"unparsable token {tok}"
+            | _ => some s!"unparsable token {tok}")
+          match (match mo.reason with
+                 | some x => some x
+                 | none => match findBad with
+                   | some w => some ("C07", w)
+                   | none => seqBad.map (fun w => ("C06", w))) with
           | none => (st, [])
           | some (prop, why) =>
             ({ st with monDead := true, mons := st.mons + 1 },
